@@ -51,10 +51,40 @@ func zzGenErr(ek, nd int) error {
 		return io.EOF // e.g. a handler returning its own Recv's io.EOF as an error
 	case 9:
 		return fmt.Errorf("giving up: %w", io.EOF)
+	case 10:
+		return zzOKStatusErr{} // an error whose gRPC status says OK: still a failure
 	default:
 		return context.DeadlineExceeded
 	}
 }
+
+// zzPassThroughInterceptors: n pass-through unary and stream interceptors on the server (the
+// handler's outcome must reach the caller through them unchanged).
+func zzPassThroughInterceptors(n int) []ServerOption {
+	if n == 0 {
+		return nil
+	}
+	var us []grpc.UnaryServerInterceptor
+	var ss []grpc.StreamServerInterceptor
+	for i := 0; i < n; i++ {
+		us = append(us, func(ctx context.Context, req any, info *grpc.UnaryServerInfo, handler grpc.UnaryHandler) (any, error) {
+			return handler(ctx, req)
+		})
+		ss = append(ss, func(srv any, stream grpc.ServerStream, info *grpc.StreamServerInfo, handler grpc.StreamHandler) error {
+			return handler(srv, stream)
+		})
+	}
+	if n == 1 {
+		return []ServerOption{UnaryInterceptor(us[0]), StreamInterceptor(ss[0])}
+	}
+	return []ServerOption{ChainUnaryInterceptor(us...), ChainStreamInterceptor(ss...)}
+}
+
+// zzOKStatusErr is a (non-nil) error whose GRPCStatus() reports code OK.
+type zzOKStatusErr struct{}
+
+func (zzOKStatusErr) Error() string              { return "failed, but my status says OK" }
+func (zzOKStatusErr) GRPCStatus() *status.Status { return status.New(codes.OK, "weird") }
 
 func zzSameStatus(got error, want *status.Status, label string) {
 	gs, ok := status.FromError(got)
@@ -84,7 +114,7 @@ func H_C03_unary() {
 		}
 		return &testproto.Msg{Value: in.GetValue() + 1}, nil
 	}
-	srv := zzNewServer("srv", impl, nil)
+	srv := zzNewServer("srv", impl, nil, zzPassThroughInterceptors(vfParam("ic", 0))...)
 	crw, srw := zzPair()
 	go func() { srv.Serve(context.Background(), srw) }()
 	cc := NewClientConn(crw, "cli", "srv")
@@ -120,6 +150,12 @@ func H_C03_unary() {
 		if !ok {
 			want = status.FromContextError(E)
 		}
+		if ek == 10 {
+			// which non-OK code the caller gets for an error whose status says OK is not pinned down by
+			// the property; that it is a failure is
+			vfReach("error")
+			return
+		}
 		vfAssert(want.Code() != codes.OK, "non-OK")
 		zzSameStatus(err, want, "unary-status")
 		vfReach("error")
@@ -147,7 +183,7 @@ func H_C03_stream() {
 		}
 		return E
 	}
-	srv := zzNewServer("srv", &zzImpl{}, map[string]grpc.StreamHandler{"BidiStream": sh})
+	srv := zzNewServer("srv", &zzImpl{}, map[string]grpc.StreamHandler{"BidiStream": sh}, zzPassThroughInterceptors(vfParam("ic", 0))...)
 	crw, srw := zzPair()
 	go func() { srv.Serve(context.Background(), srw) }()
 	cc := NewClientConn(crw, "cli", "srv")
@@ -200,6 +236,12 @@ func H_C03_stream() {
 		}
 		vfAssert(termErr != io.EOF && termErr != nil, "handler-failure-never-reported-as-EOF")
 		want, _ := status.FromError(E)
+		if ek == 10 {
+			// which non-OK code the caller gets for an error whose status says OK is not pinned down by
+			// the property; that it is a failure is
+			vfReach("error")
+			return
+		}
 		vfAssert(want.Code() != codes.OK, "non-OK")
 		zzSameStatus(termErr, want, "stream-status")
 		vfReach("error")
